@@ -134,6 +134,10 @@ func (module *InMemoryStorage) Configure(name, configRoot string) {
 	if module.numWorkers < 1 {
 		panic("Storage module '" + name + "' must be configured with at least one worker")
 	}
+	// Every partition keeps a ring of this many offsets; ring.New returns nil for a size below 1
+	if module.intervals < 1 {
+		panic("Storage module '" + name + "' must be configured with at least one interval")
+	}
 
 	module.requestChannel = make(chan *protocol.StorageRequest, module.queueDepth)
 	module.workersRunning = sync.WaitGroup{}
